@@ -140,6 +140,10 @@ func (s *SigBlob) VerifyPages(r io.Reader) error {
 		return errors.New("no valid code dir found")
 	}
 	remaining := s.CodeSize()
+	if remaining < 0 {
+		// the 64-bit limit is unsigned on disk; nothing that large can be checked
+		return errors.New("invalid code limit")
+	}
 	if dir.Header.PageSizeLog2 == 0 {
 		// single page for DMG bundles
 		if len(dir.CodeHashes) != 1 {
